@@ -34,9 +34,7 @@ CHAR_NUM_RE = re.compile(r' *\(at char \d+\),')
 
 
 def reformat_exception(ex_msg, line_num=None):
-    print(ex_msg)
     msg = CHAR_NUM_RE.sub(u'', six.text_type(ex_msg))
-    print(msg)
     if line_num is not None:
         return msg.replace(u'line:1', u'line:%d' % line_num)
     else:
